@@ -550,6 +550,10 @@ func (ex *Exec) fsIntrinsic(fn *ssa.Function, name string, args []Value) (Value,
 					if !isCell {
 						panic(unsupported("json map value for aggregate field " + tag))
 					}
+					if tag == "escape_chars" {
+						cell.v = ex.escapeTableFromChars(dst.typ.Field(i).Type(), val)
+						continue
+					}
 					switch x := val.(type) {
 					case *Term:
 						fs := sortOf(dst.typ.Field(i).Type())
@@ -642,4 +646,72 @@ func (ex *Exec) buildEnv(val func(*Term) uint64) []FSPre {
 	}
 	sort.Slice(out, func(i, j int) bool { return len(out[i].Path) < len(out[j].Path) })
 	return out
+}
+
+
+// escapeTableFromChars is the JSON stub's counterpart of escapeTable.UnmarshalJSON + escapeCharsToTable for the one
+// field whose value is a nested list: [[char, leader+code], ...] with latin-1 characters written as UTF-8 strings.
+// It applies the same validity rules (one byte, two bytes, leader first). The real decoder runs in the native replay.
+func (ex *Exec) escapeTableFromChars(fieldT types.Type, val Value) Value {
+	st := fieldT.(*types.Pointer).Elem()
+	so := ex.newLoc(st).(*StructObj)
+	byteT := types.Typ[types.Byte]
+	ptrT := types.NewPointer(byteT)
+	mk := func() *ArrayObj { return ex.newArray(ptrT, 256) }
+	esc, unesc := mk(), mk()
+	for i := 0; i < 256; i++ {
+		esc.vals[i], unesc.vals[i] = Ptr{}, Ptr{}
+	}
+	latin1 := func(v Value) []byte {
+		bs := ex.bytesOf(v)
+		var out []byte
+		for k := 0; k < len(bs); k++ {
+			if !bs[k].IsConst() {
+				panic(unsupported("symbolic escape_chars"))
+			}
+			b := byte(bs[k].val)
+			if b < 0x80 {
+				out = append(out, b)
+			} else if b&0xE0 == 0xC0 && k+1 < len(bs) {
+				out = append(out, (b&0x1F)<<6|byte(bs[k+1].val)&0x3F)
+				k++
+			} else {
+				panic(unsupported("escape_chars outside latin-1"))
+			}
+		}
+		return out
+	}
+	outer, ok := val.(Slice)
+	if !ok {
+		panic(unsupported(fmt.Sprintf("escape_chars value %T", val)))
+	}
+	n := int(ex.concretize(outer.len))
+	for k := 0; k < n; k++ {
+		pair := ex.loadElem(outer.arr, ex.ts.Bin(OpAdd, outer.off, ex.ts.Const(64, uint64(k)))).(Slice)
+		if ex.concretize(pair.len) != 2 {
+			panic(unsupported("escape_chars pair"))
+		}
+		a := latin1(ex.loadElem(pair.arr, pair.off))
+		b := latin1(ex.loadElem(pair.arr, ex.ts.Bin(OpAdd, pair.off, ex.ts.Const(64, 1))))
+		if len(a) != 1 || len(b) != 2 || b[0] != 0xee {
+			panic(unsupported("escape_chars invalid (the real decoder would reject it)"))
+		}
+		ca, cb := &Cell{ex.ts.Const(8, uint64(a[0]))}, &Cell{ex.ts.Const(8, uint64(b[1]))}
+		esc.vals[a[0]] = Ptr{loc: cb}
+		unesc.vals[b[1]] = Ptr{loc: ca}
+	}
+	c256 := ex.ts.Const(64, 256)
+	z := ex.ts.Const(64, 0)
+	for i := 0; i < so.typ.NumFields(); i++ {
+		switch so.typ.Field(i).Name() {
+		case "totalCount":
+			so.fields[i].(*Cell).v = ex.ts.Const(64, uint64(n))
+		case "escapeCodes":
+			so.fields[i].(*Cell).v = Slice{esc, z, c256, c256}
+		case "unescapeCodes":
+			so.fields[i].(*Cell).v = Slice{unesc, z, c256, c256}
+		}
+	}
+	ex.stubsUsed["json: escape_chars -> escapeTable (stub of UnmarshalJSON/escapeCharsToTable; real decoder in the native replay)"]++
+	return Ptr{loc: so}
 }
